@@ -107,34 +107,68 @@ def build_driver():
 # ---------------------------------------------------------------------------
 # running the two executables
 
+LINE_TIMEOUT = float(os.environ.get("VERIF_LINE_TIMEOUT", "20"))
+MAX_HANGS_PER_CHUNK = 1
+
+
 def _run_chunk(binary, lines, timeout):
-    """Feed lines to one process; if it dies, mark the line it was on and restart."""
+    """Feed lines to one process and read one answer per line.  A process that dies is restarted after the line
+    it was on ("abort ..."); a line that produces no answer within LINE_TIMEOUT seconds is a hang: the process
+    is killed, the line is marked "hang timeout" and the rest continues in a fresh process (after
+    MAX_HANGS_PER_CHUNK hangs the remaining lines of the chunk are marked "skipped after hangs")."""
+    import select, threading
     results = []
     i = 0
+    hangs = 0
+    t_end = time.time() + timeout
     while i < len(lines):
+        if hangs >= MAX_HANGS_PER_CHUNK or time.time() > t_end:
+            results.extend(["skipped after hangs"] * (len(lines) - i))
+            break
         chunk = lines[i:]
+        p = subprocess.Popen([binary], stdin=subprocess.PIPE, stdout=subprocess.PIPE, stderr=subprocess.DEVNULL, env=ENV)
+
+        def feed(proc=p, data=("\n".join(chunk) + "\n").encode()):
+            try:
+                proc.stdin.write(data)
+                proc.stdin.close()
+            except Exception:
+                pass
+        th = threading.Thread(target=feed, daemon=True)
+        th.start()
+        fd = p.stdout.fileno()
+        buf = b""
+        got = 0
+        status = None
+        last = time.time()
+        while got < len(chunk):
+            r, _, _ = select.select([fd], [], [], 1.0)
+            if r:
+                data = os.read(fd, 1 << 16)
+                if not data:
+                    break
+                buf += data
+                while b"\n" in buf and got < len(chunk):
+                    line, buf = buf.split(b"\n", 1)
+                    results.append(line.decode("utf-8", "replace"))
+                    got += 1
+                    last = time.time()
+            elif time.time() - last > min(LINE_TIMEOUT, timeout / 6.0):
+                status = "hang timeout"
+                hangs += 1
+                break
         try:
-            p = subprocess.run([binary], input=("\n".join(chunk) + "\n").encode(), stdout=subprocess.PIPE,
-                               stderr=subprocess.DEVNULL, timeout=timeout, env=ENV)
-            outs = p.stdout.decode("utf-8", "replace").split("\n")
-            if outs and outs[-1] == "":
-                outs.pop()
-            died = p.returncode != 0
-            status = "abort rc=%d" % p.returncode
-        except subprocess.TimeoutExpired as e:
-            outs = (e.stdout or b"").decode("utf-8", "replace").split("\n")
-            if outs and outs[-1] == "":
-                outs.pop()
-            # an incomplete last line is dropped
-            died = True
-            status = "hang timeout"
-        outs = outs[:len(chunk)]
-        results.extend(outs)
-        i += len(outs)
-        if i < len(lines):
-            if died or len(outs) < len(chunk):
-                results.append(status if died else "abort eof")
-                i += 1
+            p.kill()
+        except Exception:
+            pass
+        try:
+            rc = p.wait(timeout=10)
+        except Exception:
+            rc = -9
+        i += got
+        if i < len(lines) and got < len(chunk):
+            results.append(status or ("abort rc=%d" % rc if rc not in (0, -9) else "abort eof"))
+            i += 1
     return results
 
 
